@@ -764,6 +764,8 @@ fn run_hist(case: &Value, scratch: &StdPath) -> String {
             match_links: gc.match_links,
             no_check_size: case["nosize"].as_bool().unwrap_or(false),
             modified_before: Some(ts),
+            // `--isolate` roots (given to the dedupe command, or inherited from the header by run_dedupe)
+            isolated_roots: strs(case, "iso").iter().map(|r| FPath::from(tree.join(r))).collect(),
             ..DedupeConfig::default()
         };
         // ---- state of every path right before the dedupe run
@@ -791,7 +793,7 @@ fn run_hist(case: &Value, scratch: &StdPath) -> String {
             ));
         }
         let line = format!(
-            "H {} {} {} {} {} {} {} - {} |{}",
+            "H {} {} {} {} {} {} {} {} {} |{}",
             match opname {
                 "mv" => format!("mv:{}", path_hex(&movedir)),
                 o => o.to_string(),
@@ -802,6 +804,7 @@ fn run_hist(case: &Value, scratch: &StdPath) -> String {
             ts_ns,
             if config.priority.is_empty() { "-".to_string() } else { case["prio"].as_array().unwrap().iter().map(|p| p.to_string()).collect::<Vec<_>>().join(",") },
             glen,
+            if config.isolated_roots.is_empty() { "-".to_string() } else { strs(case, "iso").iter().map(|r| path_hex(&tree.join(r))).collect::<Vec<_>>().join(",") },
             if d0.is_empty() { "-".to_string() } else { hex_comp(&d0) },
             mems.join(" ;")
         );
